@@ -47,6 +47,9 @@ func init() {
 			cfg.Prompt = p
 		}
 		cfg.Multiline = os.Getenv("VERIF_DBG_MULTILINE")
+		if os.Getenv("VERIF_DBG_PRE") != "" {
+			cfg.PreOutput = "earlier\r\noutput\r\n\r\n"
+		}
 		j := harness.Job{Cfg: cfg, Calls: [][]harness.Answer{ans}, Want: harness.Want{Obs: 2, Screen: 2, ScreenCheck: true}}
 		t := c.Pool.RunOne(&j)
 		call := LastCall(t)
